@@ -88,7 +88,7 @@ def materialise(st, eig_mask):
         if fl == 2:
             gv[a] = gv[b] = True
     return dict(
-        p_id=p_id, hh_id=[5 + 3 * h for h in st["hh"]], alter=[AGES[a] for a in st["ages"]],
+        p_id=p_id, hh_id=[5 + h for h in st["hh"]], alter=[AGES[a] for a in st["ages"]],
         p_id_ehepartner=ehe, p_id_einstandspartner=[lab(j) for j in st["partner"]],
         p_id_elternteil_1=[lab(p[0]) for p in st["parents"]], p_id_elternteil_2=[lab(p[1]) for p in st["parents"]],
         gemeinsam_veranlagt=gv, eigenbedarf_gedeckt=[bool(eig_mask >> i & 1) for i in range(n)],
